@@ -4,6 +4,7 @@ Property theorems about `JinnsModel/LossTerms.lean`, for every network, initial 
 sample set, volume, observation table, slice and weight.
 -/
 import JinnsModel.LossTerms
+import JinnsModel.HoldsC05
 import JinnsProofs.C03
 import Mathlib.Tactic.Ring
 import Mathlib.Tactic.FieldSimp
@@ -76,6 +77,10 @@ theorem normNonStatio_scalar {T S : Type} (w L : ℚ) (sliceSol : Slice) (u : T 
       List.map_congr_left (h t ht)
     simp only [meanAll, e', flatten_map_singleton, mul_comm]
   simp only [normNonStatio, e]
+
+/-- the deviation `Holds.C05` compares the normalisation terms with is the one of the two theorems
+    above -/
+theorem holds_dev_eq (L : ℚ) (us : List ℚ) : Jinns.Holds.c05Dev L us = sqr (L * mean us - 1) := rfl
 
 theorem sum_map_sq_sub (l : List ℚ) (m : ℚ) :
     (l.map fun a => sqr (a - m)).sum =
